@@ -59,9 +59,7 @@ class Ctx:
     def var(self, name):
         name = name.lower()
         if name.startswith("widx"):
-            if name not in self.freshmap:
-                self.freshmap[name] = self.fresh.pop(0) if self.fresh else 9000 + len(self.freshmap)
-            return self.freshmap[name]
+            return self.freshmap.get(name, 9999)
         return self.names.id(name)
 
     def cb(self, text=None):
@@ -182,12 +180,26 @@ def export_stmts(node, cx):
             return [["assign", cx.var(lhs.name), rhs]]
         raise minif.Unsupported("lhs " + type(lhs).__name__)
     if isinstance(node, N.IfBlock):
+        cond = export_expr(node.condition, cx)
+        thn = export_stmt(node.if_body, cx)          # pre-order: fresh names / tags are consumed in order
         els = export_stmt(node.else_body, cx) if node.else_body is not None else ["skip"]
-        return [["ite", export_expr(node.condition, cx), export_stmt(node.if_body, cx), els]]
+        return [["ite", cond, thn, els]]
     if isinstance(node, N.Loop):
-        v = cx.var(node.variable.name)
-        return [["loop", v, export_expr(node.start_expr, cx), export_expr(node.stop_expr, cx),
-                 export_expr(node.step_expr, cx), export_stmt(node.loop_body, cx)]]
+        name = node.variable.name.lower()
+        if name.startswith("widx"):
+            # a fresh binding per WHERE loop (the same name may be re-used in different scopes)
+            old = cx.freshmap.get(name)
+            cx.nfresh += 1
+            cx.freshmap[name] = cx.fresh.pop(0) if cx.fresh else 9000 + cx.nfresh
+        v = cx.var(name)
+        res = [["loop", v, export_expr(node.start_expr, cx), export_expr(node.stop_expr, cx),
+                export_expr(node.step_expr, cx), export_stmt(node.loop_body, cx)]]
+        if name.startswith("widx"):
+            if old is None:
+                del cx.freshmap[name]
+            else:
+                cx.freshmap[name] = old
+        return res
     if isinstance(node, N.CodeBlock):
         out = []
         for ast in node.get_ast_nodes:
